@@ -72,7 +72,9 @@ def resample_jackknife(observations: NDArray, patch_rows: bool = True) -> NDArra
     idx_range = np.arange(0, num_patches)
     idx_samples_full = np.tile(idx_range, num_patches)
 
-    idx_jackknife = np.delete(idx_samples_full, idx_range).reshape((num_patches, -1))
+    # remove the k-th index from the k-th repetition to leave out the k-th patch
+    idx_leave_out = idx_range * (num_patches + 1)
+    idx_jackknife = np.delete(idx_samples_full, idx_leave_out).reshape((num_patches, -1))
     return observations[idx_jackknife].sum(axis=1)
 
 
